@@ -475,6 +475,34 @@ def run_rewriter(ctx, model, rng, corp):
             ctx.fail({"history_kind": "rewriter", "map": m},
                      "replacements differ between caller-supplied and fresh instances",
                      expected=repr(fresh), observed=repr(used), cls="rewriter", sig=["rw"])
+    # constructions that FAIL (a bad key or a bad target, whichever position) on shared
+    # instances: afterwards the instances must still behave like fresh ones on every input
+    bad_maps = [{"a": "x eq"}, {"a": "#"}, {"a": "contains(x)"}, {"a": "nosuchfunc(x)"},
+                {"x eq": "a"}, {"#": "a"}, {"length()": "a"}, {"nosuch(1)": "a"},
+                {"ok": "p/q", "a": "x eq"}, {"a": "x eq", "ok": "p/q"}, {"a": "'unterminated"},
+                {"a": "my.f(a=1, 2)"}, {"a": ")"}, {"a": ""}]
+    probes = [c[1] for c in corp if c[0] in ("func-unknown", "func-count", "valid", "tok-error")][:40] + \
+             ["soundex(name) eq 'R163'", "xs/any(y: lpad(y/a) eq 1)", "length() eq 1", "a eq 1"]
+    for i, m in enumerate(bad_maps * ctx.pick(1, 4)):
+        if not ctx.mine(i):
+            continue
+        lx, ps = ODataLexer(), ODataParser()
+        try:
+            AliasRewriter(m, lx, ps)
+            ctx.count("bad_map_accepted")
+        except Exception:
+            ctx.count("bad_map_rejected")
+        for text in probes:
+            ctx.count("evaluations")
+            ctx.seen(["rw-bad", i, text])
+            got, want = outcome(text, lx, ps), model.get(text)
+            if got != want:
+                ctx.fail({"history_kind": "rewriter-construction-failed", "map": m, "input": text},
+                         "after a failed AliasRewriter construction the caller's parser / lexer "
+                         "no longer behaves like a fresh one", expected=want, observed=got,
+                         cls="rewriter", sig=["rw-bad"])
+                break
+        ctx.cls("rewriter-bad-map")
 
 
 def run(ctx):
